@@ -2144,4 +2144,27 @@ def r5b(cx):
                              loc=_hloc(F, WORDUNIT_EXPAND, arm))
 
 
+TRIM_APPLY = 'yash_semantics::expansion::initial::param::trim::apply'
+WORD_EXPAND = [re.compile(r'Expand<S> for yash_syntax::syntax::Word>::expand$')]
+
+
+@RS.rule('C01.R4b', 'K-PASS', 'trim modifiers: the pattern word is expanded on every path (its unset-parameter / ${x?} errors and side '
+         'effects are required whatever the value being trimmed is)')
+def r4b(cx):
+    F = cx.F
+    body = F.main_body(TRIM_APPLY)
+    cx.fn(body.fn)
+    du = Q.DefUse(body)
+    exp = [(b, t) for b, t in Q.find_calls(body, WORD_EXPAND) if 'pattern' in str(Q.arg_names(body, du, t)[0])]
+    cx.site('%s: trim.pattern.expand(env) x%d' % (body.fn, len(exp)))
+    if not exp:
+        cx.violation(TRIM_APPLY, 'pattern-not-expanded', 'the pattern word of ${x#w} is never expanded', loc=body.loc(body.d))
+        return
+    p = Q.must_pass(body, [0], {b for b, _ in exp})
+    if p is not None:
+        cx.violation(TRIM_APPLY, 'pattern-expansion-skipped', 'a path through the trim modifier returns without expanding the pattern word: '
+                     '`set -u; e=; : ${e#$unset}` and `${e%${nosuch?}}` must fail, and `${e#${y:=v}}` must assign y, whatever the value '
+                     'of e is', loc=body.loc(body.term(p[min(len(p) - 1, 1)])), path=Q.render_path(body, p))
+
+
 RS.rules.sort(key=lambda r: r.id)
